@@ -499,6 +499,7 @@ func runC05(c *rt.Ctx) {
 		c.Require("decorated-valid-text", 10000)
 	}
 	refillRun(c, c.Pick(40000, 400000), "uu")
+	guardedInputs(c, "C05", "uu", []string{"f81d4fae-7dec-11d0-a765-00a0c91e6bf6", "urn:uuid:f81d4fae-7dec-11d0-a765-00a0c91e6bf6", "F81D4FAE-7DEC-11D0-A765-00A0C91E6BF6", "URN:uuid:00000000-0000-0000-0000-000000000000", "f81d4fae-7dec-11d0-a765-00a0c91e6bf", "f81d4fae-7dec-11d0-a765-00a0c91e6bf6f", "f81d4fae07dec-11d0-a765-00a0c91e6bf6", "urn:uuid:", "u", "f81d4fae"})
 	coldStart(c, "C05", 12)
 	c.Exhaustive("all 6 pairs of separator positions x all 65,536 byte pairs on one valid text")
 	c.Require("separator-pair-substitution", 390000)
